@@ -324,6 +324,88 @@ def gen_programs(depth, sig_subset3=None):
             yield {'sig': si, 'dec': di, 'depth': d}
 
 
+# ------------------------------------------------------------------------------------------------ try_* against an alphabet of exceptions
+
+class _Custom(Exception):
+    pass
+
+
+EXCS = [
+    ("KeyError('boom')", lambda: KeyError('boom')), ('KeyError((1, 2))', lambda: KeyError((1, 2))), ('KeyError(())', lambda: KeyError(())),
+    ('ValueError((1, 2, 3))', lambda: ValueError((1, 2, 3))), ('ValueError()', lambda: ValueError()), ("ValueError('a', 'b')", lambda: ValueError('a', 'b')),
+    ("TypeError('%s and %d')", lambda: TypeError('%s and %d')), ('IndexError([1, 2])', lambda: IndexError([1, 2])), ("_Custom({'a': 1})", lambda: _Custom({'a': 1})),
+    ('ZeroDivisionError', lambda: ZeroDivisionError('division by zero')), ('AssertionError(None)', lambda: AssertionError(None)), ('StopIteration(3)', lambda: StopIteration(3)),
+    ("LookupError(('%s',))", lambda: LookupError(('%s',))), ("OSError(2, 'gone')", lambda: OSError(2, 'gone')),
+]
+TRY_VALUES = [('None', None), ('0', 0), ("'V'", 'V'), ('[]', []), ("{'a': 1}", {'a': 1})]
+VERBOSE = [None, False, True]
+
+
+def gen_tries():
+    for ei in range(len(EXCS)):
+        yield {'exc': ei}
+
+
+def check_tries(case):
+    """a wrapper built with try_value(f, repeat=r, value=V, verbose=v): f fails its first k calls; the wrapper returns f's value when k <= r, else (a copy of) V,
+    having called f min(k, r) + 1 times; the named wrappers try_none .. try_list / try_back on an f that always raises"""
+    import pyg_base as P
+    out = Out()
+    ename, mk = EXCS[case['exc']]
+    named = [('try_none', P.try_none, None), ('try_nan', P.try_nan, 'nan'), ('try_zero', P.try_zero, 0), ('try_false', P.try_false, False), ('try_true', P.try_true, True),
+             ('try_list', P.try_list, []), ('try_back', P.try_back, 'first')]
+
+    def raiser(a, b=0):
+        raise mk()
+    for nm, W, fb in named:
+        for args, kw in (((7,), {}), ((), {'a': 7}), ((7,), {'b': 1}), ((), {'b': 1, 'a': 7})):
+            out.sub()
+            lab = '%s(f)(*%r, **%r) with f raising %s' % (nm, args, kw, ename)
+            try:
+                got = W(raiser)(*args, **kw)
+                out.call()
+            except BaseException as e:
+                out.viol('try-did-not-catch', '%s raised %s: %s' % (lab, type(e).__name__, e), decorator=nm, exc=ename.split('(')[0])
+                continue
+            ok = (isinstance(got, float) and got != got) if fb == 'nan' else (got == 7) if fb == 'first' else (got == fb and type(got) is type(fb))
+            if not ok:
+                out.viol('try-wrong-fallback', '%s returned %r, expected %s' % (lab, got, 'the first argument 7' if fb == 'first' else repr(fb)), decorator=nm, exc=ename.split('(')[0])
+    for vname, V in TRY_VALUES:
+        for verbose in VERBOSE:
+            for r in (0, 1, 2):
+                for k in (0, 1, 2, 3, 4):
+                    out.sub()
+                    count = [0]
+
+                    def f(a, count=count, k=k):
+                        count[0] += 1
+                        if count[0] <= k:
+                            raise mk()
+                        return ('ok', a)
+                    lab = 'try_value(f, repeat=%d, value=%s, verbose=%r)(5) with f raising %s on its first %d calls' % (r, vname, verbose, ename, k)
+                    try:
+                        w = P.try_value(f, repeat=r, value=V, verbose=verbose)
+                        got = w(5)
+                        out.call()
+                    except BaseException as e:
+                        out.viol('try-did-not-catch', '%s raised %s: %s' % (lab, type(e).__name__, e), decorator='try_value', verbose=bool(verbose), exc=ename.split('(')[0])
+                        continue
+                    if k <= r:
+                        exp, ncalls = ('ok', 5), k + 1
+                    else:
+                        exp, ncalls = V, r + 1
+                    if got != exp or type(got) is not type(exp):
+                        out.viol('try-wrong-fallback', '%s returned %r, expected %r' % (lab, got, exp), decorator='try_value', verbose=bool(verbose), fell_back=k > r)
+                    elif count[0] != ncalls:
+                        out.viol('try-call-count', '%s called f %d times, expected %d' % (lab, count[0], ncalls), decorator='try_value', repeat=r)
+                    elif k > r and isinstance(V, (list, dict)) and got is V:
+                        out.viol('try-wrong-fallback', '%s returned the very object given as value= (the caller could corrupt the next fallback)' % lab, decorator='try_value', shared=True)
+                    out.cls('fallback' if k > r else 'retry-succeeded' if k else 'no-exception')
+                    if 0 < k:
+                        out.nontrivial('%s|%s|%d|%d' % (vname, verbose, r, k))
+    return out
+
+
 # ------------------------------------------------------------------------------------------------ cache histories (E1)
 
 CALLS = [
@@ -453,5 +535,11 @@ def suites(tier, seed):
                    '%s: result, getargspec, double wrapping, getcallargs / call_with_callargs, try_* fallbacks on a raising twin, kwargs_support keyword filtering; '
                    'non-trivial = calls mixing positional and keyword passing' % depth_txt,
               bounds=dict(signatures=len(SIGS), decorators=10, stack_depth=2 if q else 3)),
+        Suite('try_exceptions', gen_tries, check_tries,
+              rule='%d exception objects (payloads: string, tuple, empty tuple, list, dict, none, several args, %%-patterns, errno pairs; KeyError .. OSError and a user class) x '
+                   '{try_none, try_nan, try_zero, try_false, try_true, try_list, try_back} x 4 call spellings; try_value(f, repeat=r, value=V, verbose=v) for 5 values x '
+                   'verbose in {None, False, True} x r in 0..2 x f failing its first k in 0..4 calls: result, number of calls of f, a mutable value is handed out as a copy; '
+                   'non-trivial = f raised at least once' % len(EXCS),
+              bounds=dict(exceptions=len(EXCS), values=len(TRY_VALUES), repeat_max=2, failures_max=4)),
         CacheBfs(3 if q else 5),
     ]
